@@ -81,7 +81,7 @@ def generate(ctx):
                            workers=1, timeout=900, count=False)
         # seeded random longer names (up to 8 segments), the laws are checked on them as well
         return ctx.tlc("PathScopeGen", cfg_text=gen_cfg(8, 9, (1, 2), (False, True), True, True),
-                       mode="simulate", num=400, depth=9, seed=ctx.seed * 13 + arg, workers=1, timeout=900,
+                       mode="simulate", num=60, depth=9, seed=ctx.seed * 13 + arg, workers=1, timeout=900,
                        count=False)
 
     res = ctx.pmap(job, jobs)
@@ -155,12 +155,8 @@ def evaluate(ctx, vectors):
         where = "/dev/shm"
     work = tempfile.mkdtemp(prefix="verif-c18-", dir=where)
     try:
-        sand = os.path.join(work, "sand")
-        tmpd = os.path.join(work, "tmp")
-        os.mkdir(sand)
-        os.mkdir(tmpd)
         res = vlib.drive(ctx, binp, vectors, chunk=max(16, len(vectors) // (vlib.NCPU * 4)), timeout=900,
-                         env={"C18_SANDBOXES": sand, "TMPDIR": tmpd})
+                         env={"C18_SANDBOXES": work})
     finally:
         shutil.rmtree(work, ignore_errors=True)
     events = []
@@ -186,10 +182,11 @@ def judge(ctx, events):
     for ev, why in bad:
         v = {k: ev[k] for k in ("comp", "op", "depth", "pad", "abs", "segs", "roots", "base", "esc", "cls")}
         ctx.violation("%s:%s:%s:%s" % (ev["comp"], ev["op"], why["cls"], label(why)),
-                      "%s %s(%r) with root %s: %s; error returned: %s%s; sandbox changes: %s; returned data from: %s"
+                      "%s %s(%r) with root %s: %s; error returned: %s%s; outside the root: %s; all sandbox changes: %s; returned data from: %s"
                       % (ev["comp"], ev["op"], ev["name"], ev.get("rootpath"),
                          "the name resolves outside the root (%s)" % why["cls"] if why["escapes"] else "the name stays inside (%s)" % why["cls"],
                          ev["err"], " (%s)" % ev["errtext"][:160] if ev["errtext"] else "",
+                         json.dumps(sorted("/".join(x) for x in why["where"])[:6]),
                          json.dumps([[c["k"], "/".join(c["p"])] for c in ev["changes"]][:8]),
                          json.dumps(["/".join(g) for g in ev["got"]][:6])),
                       {"vector": v, "event": ev, "why": why})
